@@ -7,6 +7,7 @@ Prints one line per patch; exit 1 if an expectation is not met."""
 import sys, os, json, subprocess, concurrent.futures, queue, shutil, re
 
 N = 12
+BIN = os.environ.get("PAR_BIN", "/verif/bin/jivacheck")
 ENV = dict(os.environ, GOFLAGS="-mod=mod", GOPROXY="off", GOSUMDB="off", GOTOOLCHAIN="local", GOWORK="off")
 PROPS = ["C%02d" % i for i in range(1, 20)]
 slots = queue.Queue()
@@ -51,7 +52,7 @@ def job(mode, d):
             props = os.environ["PAR_PROPS"].split(",")
         res = {}
         for p in props:
-            r = sh(f"/verif/bin/jivacheck -property {p} -repo {wt} -verif {v}")
+            r = sh(f"{BIN} -property {p} -repo {wt} -verif {v}")
             rules = sorted(set(re.findall(r"^  ((?:C\d\d-[A-Z0-9-]+|INTERNAL|CONFIG[a-z-]*))(?:\[tags=debug\])? \[(?:violated|undecided)\]", r.stdout, re.M)))
             if r.returncode != 0:
                 res[p] = rules or ["rc=%d" % r.returncode]
